@@ -17,6 +17,8 @@ CHECKS = {
                 text="Bounded differential symbolic check against an independent reference encoder/coercion table written from the format description."),
     "C13": dict(cat="other", ref="DESIGN.md §4 C13", technique="CrossHair symbolic execution of loads/load on symbolic byte strings, symbolic operand fields and symbolic mutations of valid dumps",
                 text="Bounded symbolic check that the loader returns only supported builtin values or raises DataFormatError/EOFError for all byte strings / operand values / single-byte mutations / strict prefixes inside the bounds."),
+    "C19": dict(cat="other", ref="DESIGN.md §4 C19", technique="CrossHair symbolic execution of ChannelFileRead.read/readline and ChannelFileWrite against a reference file; symbolic item contents and read sizes, enumerated item counts and op sequences",
+                text="Bounded differential symbolic check of the real channel-file classes against a position+slice reference file."),
 }
 
 NOT_APPLICABLE = [
